@@ -29,7 +29,7 @@ import (
 )
 
 func init() {
-	register(&Prop{ID: "C17", Module: "V.C17.Check", Gen: c17Gen, Quick: 700, Thorough: 9000, Shard: 60})
+	register(&Prop{ID: "C17", Module: "V.C17.Check", Gen: c17Gen, Quick: 700, Thorough: 9000, Shard: 120})
 }
 
 const (
@@ -403,9 +403,9 @@ func c17Gen(r *Rng, tier string, n int) []Case {
 			out = append(out, c17EscCase(id, "esc-exhaustive-len2"))
 		}
 	}
-	nRand := n - len(out) - 2*nLayout
-	if nRand < 100 {
-		nRand = 100
+	nRand := 100
+	if tier == "thorough" {
+		nRand = n / 3
 	}
 	for i := 0; i < nRand; i++ {
 		if i%4 == 3 {
